@@ -527,7 +527,7 @@ func main() {
 	sequential(rep)
 	runner.FineP = 2 // statement-level points in the files of fine.txt
 	if rep.Thorough() {
-		runner.FineP = 3
+		runner.FineP = 2
 	}
 	runner.Run(rep, scenarios(rep.Thorough()))
 	rep.Finish()
